@@ -13,31 +13,40 @@
    concurrent RemoveNode that is a lock-order inversion, TLC finds the deadlock - and the zero group's
    apply loop, which calls RemoveNode, never applies another entry (C18).
 
-   Locks are modelled as writer-exclusive / reader-shared without writer preference (Go's RWMutex blocks
-   new readers behind a waiting writer, which only makes more schedules block; the cycle below needs
-   neither). *)
+   Locks are Go's RWMutex: writer-exclusive / reader-shared, and a WAITING writer blocks new readers (wantW).
+   That is what makes a read lock taken twice by one goroutine a deadlock: switch NestedRead = TRUE models a
+   NodeIds() that ranges over Nodes() while it still holds addressesMu.RLock (Nodes takes it again) - the apply
+   loop's AddNode / RemoveNode asks for the write lock in between, the second RLock waits behind it, the
+   writer waits for the first.  NestedRead = FALSE (the code): a reader takes the lock once. *)
 EXTENDS Integers, FiniteSets, TLC
-CONSTANTS Dialers, DialNested, MaxOps
+CONSTANTS Dialers, Readers, DialNested, NestedRead, MaxOps
 VARIABLES wr,      \* [lock -> holder or "none"]
           rd,      \* [lock -> set of readers]
+          wantW,   \* [lock -> set of procs waiting for the write lock]
           pc,      \* [proc -> label]
           ops      \* operations the apply loop still performs
 Locks == {"addr", "conns"}
-Procs == Dialers \cup {"apply"}
-vars == <<wr, rd, pc, ops>>
+Procs == Dialers \cup Readers \cup {"apply"}
+vars == <<wr, rd, wantW, pc, ops>>
 
 CanW(l, p) == wr[l] = "none" /\ rd[l] = {}
-CanR(l, p) == wr[l] = "none"
-LockW(l, p) == CanW(l, p) /\ wr' = [wr EXCEPT ![l] = p] /\ rd' = rd
-UnlockW(l, p) == wr' = [wr EXCEPT ![l] = "none"] /\ rd' = rd
-LockR(l, p) == CanR(l, p) /\ rd' = [rd EXCEPT ![l] = @ \cup {p}] /\ wr' = wr
-UnlockR(l, p) == rd' = [rd EXCEPT ![l] = @ \ {p}] /\ wr' = wr
+CanR(l, p) == wr[l] = "none" /\ wantW[l] = {}
+\* Lock(): either at once, or the caller announces itself (new readers then wait) and gets the lock when it is free
+LockW(l, p) == \/ /\ CanW(l, p) /\ wr' = [wr EXCEPT ![l] = p] /\ wantW' = [wantW EXCEPT ![l] = @ \ {p}] /\ rd' = rd
+               \/ /\ ~CanW(l, p) /\ p \notin wantW[l] /\ wantW' = [wantW EXCEPT ![l] = @ \cup {p}] /\ UNCHANGED <<wr, rd>> /\ FALSE
+Announce(l, p) == ~CanW(l, p) /\ p \notin wantW[l] /\ wantW' = [wantW EXCEPT ![l] = @ \cup {p}] /\ UNCHANGED <<wr, rd>>
+UnlockW(l, p) == wr' = [wr EXCEPT ![l] = "none"] /\ rd' = rd /\ wantW' = wantW
+\* readers: rd counts per process (a process may hold the read lock twice)
+LockR(l, p) == CanR(l, p) /\ rd' = [rd EXCEPT ![l] = @ \cup {p}] /\ wr' = wr /\ wantW' = wantW
+UnlockR(l, p) == rd' = [rd EXCEPT ![l] = @ \ {p}] /\ wr' = wr /\ wantW' = wantW
 
-Init == /\ wr = [l \in Locks |-> "none"] /\ rd = [l \in Locks |-> {}]
+Init == /\ wr = [l \in Locks |-> "none"] /\ rd = [l \in Locks |-> {}] /\ wantW = [l \in Locks |-> {}]
         /\ pc = [p \in Procs |-> "idle"] /\ ops = MaxOps
 
 \* the apply loop: RemoveNode (AddNode of a moved node takes the same two locks in the same order)
 Apply ==
+  \/ /\ pc["apply"] = "idle" /\ ops > 0 /\ Announce("addr", "apply") /\ UNCHANGED <<pc, ops>>
+  \/ /\ pc["apply"] = "hasAddr" /\ Announce("conns", "apply") /\ UNCHANGED <<pc, ops>>
   \/ /\ pc["apply"] = "idle" /\ ops > 0 /\ LockW("addr", "apply") /\ pc' = [pc EXCEPT !["apply"] = "hasAddr"] /\ ops' = ops - 1
   \/ /\ pc["apply"] = "hasAddr" /\ LockW("conns", "apply") /\ pc' = [pc EXCEPT !["apply"] = "hasBoth"] /\ UNCHANGED ops
   \/ /\ pc["apply"] = "hasBoth" /\ UnlockW("conns", "apply") /\ pc' = [pc EXCEPT !["apply"] = "relAddr"] /\ UNCHANGED ops
@@ -50,15 +59,23 @@ Dial(p) ==
     \/ /\ pc[p] = "look" /\ UnlockR("conns", p) /\ pc' = [pc EXCEPT ![p] = "needAddr"]
     \/ /\ pc[p] = "needAddr" /\ LockR("addr", p) /\ pc' = [pc EXCEPT ![p] = "readAddr"]
     \/ /\ pc[p] = "readAddr" /\ UnlockR("addr", p) /\ pc' = [pc EXCEPT ![p] = "needStore"]
+    \/ /\ pc[p] = "needStore" /\ Announce("conns", p) /\ pc' = pc
     \/ /\ pc[p] = "needStore" /\ LockW("conns", p) /\ pc' = [pc EXCEPT ![p] = "store"]
     \/ /\ pc[p] = "store" /\ UnlockW("conns", p) /\ pc' = [pc EXCEPT ![p] = "idle"]
   ELSE
+    \/ /\ pc[p] = "idle" /\ Announce("conns", p) /\ pc' = pc
     \/ /\ pc[p] = "idle" /\ LockW("conns", p) /\ pc' = [pc EXCEPT ![p] = "needAddr"]
     \/ /\ pc[p] = "needAddr" /\ LockR("addr", p) /\ pc' = [pc EXCEPT ![p] = "readAddr"]
     \/ /\ pc[p] = "readAddr" /\ UnlockR("addr", p) /\ pc' = [pc EXCEPT ![p] = "store"]
     \/ /\ pc[p] = "store" /\ UnlockW("conns", p) /\ pc' = [pc EXCEPT ![p] = "idle"]
 
-Next == (Apply /\ TRUE) \/ \E p \in Dialers : (Dial(p) /\ UNCHANGED ops)
+\* NodeIds() / Nodes(): a reader of the address book
+Read(p) ==
+  \/ /\ pc[p] = "idle" /\ LockR("addr", p) /\ pc' = [pc EXCEPT ![p] = IF NestedRead THEN "inner" ELSE "reading"]
+  \/ /\ pc[p] = "inner" /\ CanR("addr", p) /\ pc' = [pc EXCEPT ![p] = "reading"] /\ UNCHANGED <<wr, rd, wantW>>   \* the second RLock (and its RUnlock)
+  \/ /\ pc[p] = "reading" /\ UnlockR("addr", p) /\ pc' = [pc EXCEPT ![p] = "idle"]
+
+Next == (Apply /\ TRUE) \/ (\E p \in Dialers : (Dial(p) /\ UNCHANGED ops)) \/ (\E p \in Readers : (Read(p) /\ UNCHANGED ops))
 Spec == Init /\ [][Next]_vars
 
 \* a lock is never held by a writer and readers at once, nor by two writers (sanity of the lock model)
